@@ -395,3 +395,26 @@ impl Weekday {
         assert_eq!(expected, n);
     }
 }
+
+#[cfg(ohkami_verif)]
+#[doc(hidden)]
+/// verification hooks (compiled only with `--cfg ohkami_verif`)
+pub mod __verif {
+    use super::*;
+
+    /// `into_imf_fixdate` of the packed date `(year << 13) | (ordinal << 4) | flags` and a second of day
+    pub fn fixdate_from_raw(raw: i32, secs: u32) -> String {
+        UTCDateTime { date: Date(raw), time: Time { secs } }.into_imf_fixdate()
+    }
+
+    /// `(year, month_index, day, num_days_from_sunday)` through the real accessors
+    pub fn date_fields(raw: i32) -> (i32, u32, u32, u32) {
+        let date = Date(raw);
+        (date.year(), date.month_index(), date.day(), date.weekday().num_days_from_sunday())
+    }
+
+    /// `Time::hms` of a second of day
+    pub fn hms(secs: u32) -> (u32, u32, u32) {
+        Time { secs }.hms()
+    }
+}
